@@ -28,6 +28,20 @@ type ValueOpts struct {
 	// floats, no hostile strings, 63-bit integers, UTC times with second
 	// precision.
 	Plain bool
+	// NilElems leaves about a third of the elements / map values of
+	// collections whose element type is nil-able (pointer, slice, map) nil.
+	NilElems bool
+}
+
+func nilElem(t reflect.Type, r *sm64, o ValueOpts) bool {
+	if !o.NilElems {
+		return false
+	}
+	switch t.Kind() {
+	case reflect.Pointer, reflect.Slice, reflect.Map:
+		return r.next()%3 == 0
+	}
+	return false
 }
 
 // MakeValue deterministically builds a value of type t from seed. Seed 0 is
@@ -171,11 +185,17 @@ func makeValue(t reflect.Type, r *sm64, o ValueOpts, depth int) reflect.Value {
 		}
 		s := reflect.MakeSlice(t, n, n+extra)
 		for i := 0; i < n; i++ {
+			if nilElem(t.Elem(), r, o) {
+				continue
+			}
 			s.Index(i).Set(makeValue(t.Elem(), r, o, depth+1))
 		}
 		v.Set(s)
 	case reflect.Array:
 		for i := 0; i < t.Len(); i++ {
+			if nilElem(t.Elem(), r, o) {
+				continue
+			}
 			v.Index(i).Set(makeValue(t.Elem(), r, o, depth+1))
 		}
 	case reflect.Map:
@@ -197,6 +217,10 @@ func makeValue(t reflect.Type, r *sm64, o ValueOpts, depth int) reflect.Value {
 					x := int(uniq)
 					k.Index(0).Set(reflect.ValueOf(&x))
 				}
+			}
+			if nilElem(t.Elem(), r, o) {
+				m.SetMapIndex(k, reflect.Zero(t.Elem())) // the key is present, its value is nil
+				continue
 			}
 			m.SetMapIndex(k, makeValue(t.Elem(), r, o, depth+1))
 		}
